@@ -193,7 +193,16 @@ func (r *rwRT) interp(cfg rwConfig) *Interp {
 		if cfg.inlineAll {
 			return true
 		}
-		return !bound[fn.Name()]
+		if bound[fn.Name()] {
+			return false
+		}
+		// a hand-written recursive walk over statements (ast in, ast out, no output block): on a symbolic statement
+		// list it would be unfolded without end; it is an opaque traversal here and is judged, where a rule needs
+		// it, on concrete trees
+		if _, explicit := cfg.boundaries[fn.Name()]; !explicit && !cfg.astWalk && isRecursiveAstWalk(fn) {
+			return false
+		}
+		return true
 	}
 	// every *block is built by mkBlock, which always gives it an AST block
 	in.NNField = func(t types.Type, field string) bool {
@@ -663,4 +672,32 @@ func isAstWalkFn(fn *ssa.Function) bool {
 		return len(fn.Blocks) > 0 || (fn.Origin() != nil && len(fn.Origin().Blocks) > 0)
 	}
 	return false
+}
+
+// isRecursiveAstWalk: a function of package rewriter that calls itself (directly or from its own closures) and
+// whose parameters and results, the receiver aside, are all go/ast values.
+func isRecursiveAstWalk(fn *ssa.Function) bool {
+	fn = bodyOf(fn)
+	if fn == nil || !inRw(fn) || fn.Parent() != nil {
+		return false
+	}
+	isAst := func(t types.Type) bool {
+		s := t.String()
+		return strings.Contains(s, "go/ast.")
+	}
+	sig := fn.Signature
+	if sig.Params().Len() == 0 {
+		return false
+	}
+	for i := 0; i < sig.Params().Len(); i++ {
+		if !isAst(sig.Params().At(i).Type()) {
+			return false
+		}
+	}
+	for i := 0; i < sig.Results().Len(); i++ {
+		if !isAst(sig.Results().At(i).Type()) {
+			return false
+		}
+	}
+	return reachesFn(fn, fn.Name(), 2)
 }
